@@ -557,9 +557,56 @@ type translator struct {
 func (t *translator) coqType(n ast.Node, goType string) string {
 	c, ok := t.a.types[goType]
 	if !ok {
+		if ps, r, isFn := funcTypeParts(goType); isFn && r != "" {
+			// a (non-nil, panic-free) function value: an arrow type
+			out := "("
+			for _, p := range ps {
+				out += t.coqType(n, p) + " -> "
+			}
+			return out + t.coqType(n, r) + ")"
+		}
 		unsup(n, "type %s (not in the type table of area %s)", goType, t.a.name)
 	}
 	return c
+}
+
+// "func(A, B) R" -> [A B], R
+func funcTypeParts(goType string) ([]string, string, bool) {
+	if !strings.HasPrefix(goType, "func(") {
+		return nil, "", false
+	}
+	depth, end := 0, -1
+	for i := 4; i < len(goType); i++ {
+		switch goType[i] {
+		case '(':
+			depth++
+		case ')':
+			depth--
+			if depth == 0 {
+				end = i
+			}
+		}
+		if end >= 0 {
+			break
+		}
+	}
+	if end < 0 {
+		return nil, "", false
+	}
+	var ps []string
+	if in := strings.TrimSpace(goType[5:end]); in != "" {
+		if strings.ContainsAny(in, "()") {
+			return nil, "", false
+		}
+		for _, p := range strings.Split(in, ",") {
+			ps = append(ps, strings.TrimSpace(p))
+		}
+	}
+	r := strings.TrimSpace(goType[end+1:])
+	if strings.HasPrefix(r, "(") {
+		return nil, "", false
+	}
+	return ps, r, true
 }
 
 func (t *translator) erased(goType string) bool { return t.a.types[goType] == "-" }
@@ -805,6 +852,9 @@ func (t *translator) typeOf(e ast.Expr, ev *env) string {
 			}
 			return "int"
 		}
+		if sg, isFn := t.sigs[x.Name]; isFn && sg.pure && len(sg.results) == 1 {
+			return "func(" + strings.Join(sg.params, ", ") + ") " + sg.results[0] // a translated pure function as a value
+		}
 		unsup(x, "identifier %s (not a parameter, local variable or integer constant of the file)", x.Name)
 	case *ast.BasicLit:
 		switch x.Kind {
@@ -969,6 +1019,13 @@ func (t *translator) callableOf(c *ast.CallExpr, ev *env) (callable, bool) {
 	}
 	ft := t.typeOfSafe(c.Fun, ev)
 	cl, ok := t.a.callables[ft]
+	if !ok && len(c.Args) == 1 {
+		if ps, r, isFn := funcTypeParts(ft); isFn && len(ps) == 1 && r != "" {
+			if _, declared := t.a.types[ft]; !declared {
+				return callable{coq: "", result: r}, true // a parameter of function type: (f a)
+			}
+		}
+	}
 	if !ok || len(c.Args) != 1 {
 		return callable{}, false
 	}
@@ -1109,6 +1166,9 @@ func (t *translator) pure(e ast.Expr, ev *env, want string) string {
 		if !ok {
 			if c, isConst := t.consts[x.Name]; isConst {
 				return c
+			}
+			if sg, isFn := t.sigs[x.Name]; isFn && sg.pure {
+				return x.Name
 			}
 			unsup(x, "identifier %s (not a parameter, local variable or integer constant of the file)", x.Name)
 		}
